@@ -651,7 +651,7 @@ class World(object):
         with self._cv:
             self._turn = "server"
             self._cv.notify_all()
-            deadline = _real_time.time() + 60
+            deadline = _real_time.time() + 600
             while self._turn != "driver":
                 self._cv.wait(0.5)
                 if self._turn != "driver":
@@ -659,7 +659,7 @@ class World(object):
                         self._dead = True
                         return False
                     if _real_time.time() > deadline:
-                        raise Inconclusive("wall-clock watchdog: server loop did not yield within 60 s")
+                        raise Inconclusive("wall-clock watchdog: server loop did not yield within 600 s")
         return True
 
     def start(self):
@@ -671,7 +671,7 @@ class World(object):
             self._turn = "server"
         self.thread.start()
         with self._cv:
-            deadline = _real_time.time() + 30
+            deadline = _real_time.time() + 300
             while self._turn != "driver":
                 self._cv.wait(0.5)
                 if _real_time.time() > deadline:
@@ -686,7 +686,7 @@ class World(object):
             with self._cv:
                 self._turn = "server"
                 self._cv.notify_all()
-            self.thread.join(20)
+            self.thread.join(180)
             if self.thread.is_alive():
                 raise Inconclusive("server thread did not exit on shutdown")
         self._started = False
